@@ -98,7 +98,10 @@ func (e *Engine) switchTo(me, t *Thread) {
 // Yield is a scheduling point: the scheduler may switch to any runnable thread,
 // subject to the preemption bound.
 func (e *Engine) Yield() {
-	if len(e.threads) == 1 {
+	if len(e.threads) == 1 || e.inInit > 0 {
+		// package initialisers run lazily, once per engine instance for packages outside the
+		// repository: they must not contribute scheduling decisions, or the decision prefix of a
+		// path would depend on which worker executes it
 		e.explicitYield = false
 		return
 	}
